@@ -91,10 +91,12 @@ type balModel struct {
 	notif map[string]*big.Int
 	// locks already refunded once (never again)
 	refunded map[string]bool
+	// owners a lock was released to in the block being judged
+	blkRefundTo map[string]bool
 }
 
 func newBalModel() *balModel {
-	return &balModel{bal: map[string]*big.Int{}, locks: map[string]*balLock{}, supply: new(big.Int), notif: map[string]*big.Int{}, refunded: map[string]bool{}}
+	return &balModel{bal: map[string]*big.Int{}, locks: map[string]*balLock{}, supply: new(big.Int), notif: map[string]*big.Int{}, refunded: map[string]bool{}, blkRefundTo: map[string]bool{}}
 }
 
 func (m *balModel) get(a string) *big.Int {
@@ -699,6 +701,7 @@ func (e *balEngine) predict(bt *balTx) (expect, []balEvent, func()) {
 				amt := new(big.Int).Set(m.get(a))
 				m.add(a, new(big.Int).Neg(amt))
 				m.add(l.parent, amt)
+				m.blkRefundTo[l.parent] = true
 				delete(m.locks, a)
 				m.refunded[a] = true
 			}
@@ -736,6 +739,7 @@ func (e *balEngine) balanceEvents(aer *state.AppExecResult) []balEvent {
 // block executes the pending transactions as one block and runs all oracles.
 func (e *balEngine) block(pending []*balTx, dt uint64) {
 	r, w, m := e.r, e.w, e.m
+	m.blkRefundTo = map[string]bool{}
 	before := e.snapshot()
 	supplyBefore := new(big.Int).Set(m.supply)
 	txs := make([]*transaction.Transaction, len(pending))
@@ -798,14 +802,37 @@ func (e *balEngine) block(pending []*balTx, dt uint64) {
 		}
 		switch {
 		case exp == mustRefuse && took:
+			// whose rule it is depends on why the model refuses: a missing
+			// witness is C02's (public transfer: the holder's) or C03's (the
+			// Alphabet's) business, everything else C01's (or C09's for ticks)
 			rule := "C01/accepted-what-must-be-refused"
-			if bt.kind == bTransfer || bt.kind == bProbeMove {
-				rule = "C02/accepted-unauthorised-or-unfunded-transfer"
-			}
-			if (bt.kind == bTick || bt.kind == bDirectEpoch) && r.Prop == "C09" {
+			switch {
+			case bt.kind == bTransfer || bt.kind == bProbeMove:
+				depth := 0
+				if bt.viaProbe {
+					depth = 1
+				}
+				auth := Witness(bt.signers, bt.from, depth) || (bt.viaProbe && bytes.Equal(bt.from, e.holder.BytesBE()))
+				if len(bt.from) == 20 && len(bt.to) == 20 && auth {
+					rule = "C01/accepted-unfunded-transfer"
+				} else {
+					rule = "C02/accepted-unauthorised-or-malformed-transfer"
+				}
+			case !e.alphabetWitness(bt, 0):
+				rule = "C03/balance-call-accepted-without-alphabet-witness"
+			case (bt.kind == bTick || bt.kind == bDirectEpoch) && r.Prop == "C09":
 				rule = "C09/tick-accepted-what-must-be-refused"
 			}
-			r.ViolationSynced(rule, "", "%s by %s succeeded", bt.desc, signerNames(bt.signers))
+			if bt.kind == bTransfer || bt.kind == bProbeMove || bt.kind == bTransferX {
+				// (its effects can be followed: another property's rule does not
+				// end the run)
+				r.ViolationSynced(rule, "", "%s by %s succeeded", bt.desc, signerNames(bt.signers))
+			} else {
+				r.Violation(rule, "", "%s by %s succeeded", bt.desc, signerNames(bt.signers))
+				// (another property's rule:) its effects cannot be followed, the
+				// model is out of step from here on
+				r.Checkpoint()
+			}
 			// follow the implementation so that the other monitors still see it
 			if apply == nil {
 				_, evs, apply = e.forceEffects(bt)
@@ -813,12 +840,11 @@ func (e *balEngine) block(pending []*balTx, dt uint64) {
 		case exp == mustSucceed && !took:
 			if bt.kind == bTick || bt.kind == bDirectEpoch {
 				if !bt.gasCut {
-					if r.Prop == "C09" && !r.shadow {
-						r.Violation("C09/tick-refused", "", "%s refused: %s", bt.desc, aer.FaultException)
-					}
-					// for the other properties a refused tick is a refused call like
-					// any other: nothing changed, the model stays in sync, the run goes on
-					r.Count("foreign_refusal_not_judged.C09/tick-refused")
+					// "newEpoch(e) succeeds iff …" is C06's clause; here a refused tick
+					// is a refused call like any other: nothing changed, the model stays
+					// in sync, the run goes on (a lock that is then not released in time
+					// is judged when a tick does happen)
+					r.Count("foreign_refusal_not_judged.C06/tick-refused")
 				}
 			} else {
 				// no statement of C01/C02/C09 obliges these to succeed; counted
@@ -929,7 +955,10 @@ func (e *balEngine) block(pending []*balTx, dt uint64) {
 		}
 		if raw.Cmp(m.get(a)) != 0 {
 			rule := "C01/balance-mismatch"
-			if r.Prop == "C09" && (m.locks[a] != nil || m.refunded[a] || e.isLockParent(a)) {
+			// C09's business: lock accounts, and owners in a block in which a lock
+			// of theirs was (or had to be) released; anything else about an
+			// owner's balance is C01's
+			if r.Prop == "C09" && (m.locks[a] != nil || m.refunded[a] || m.blkRefundTo[a]) {
 				rule = "C09/lock-balance-mismatch"
 			}
 			r.Violation(rule, "", "%x: actual %s, model %s", a, raw, m.get(a))
